@@ -68,6 +68,9 @@ pub fn run(sc: &Value) -> Value {
             let stats = backup(&archive, &src, &opts, bm.clone()).await;
             let stopped = verif_hook::is_stopped();
             verif_hook::set_callback(None);
+            // the read-only inspection below is logged too (a reader that removes or rewrites something must show up)
+            log2.lock().unwrap().push(("inspect".to_string(), String::new()));
+            install_hook_root(None, "", log2.clone(), Some(arch.clone()));
             let backup_errors = bm.take_errors().iter().map(|e| format!("{e}")).collect::<Vec<_>>();
             let (backup_ok, stat_errors) = match &stats {
                 Ok(s) => (true, s.errors),
